@@ -63,7 +63,11 @@ DEFECTS = ('skip-rebind', 'no-nnps-rebuild', 'no-update', 'stale-points')
 
 # ---------------------------------------------------------------------------
 # generation of histories (inputs only)
-def span(dim):
+def span(dim, method=None):
+    # order1: compact clouds, so that the moment matrix is often well
+    # conditioned (WellCond of Interp.tla) at points inside the cloud
+    if method == 'order1':
+        return {1: 6, 2: 3, 3: 2}[dim]
     return {1: 9, 2: 4, 3: 3}[dim]
 
 
@@ -74,10 +78,10 @@ def rand_coord(rng, dim, lo, hi):
     return c
 
 
-def gen_array(rng, name, dim, n, tiny):
+def gen_array(rng, name, dim, n, tiny, method=None):
     p = []
     for i in range(n):
-        c = rand_coord(rng, dim, 0, span(dim))
+        c = rand_coord(rng, dim, 0, span(dim, method))
         p.append(dict(x=c[0], y=c[1], z=c[2], h=rng.choice((1, 1, 2)),
                       m=rng.randint(1, 3),
                       rho=1 if tiny else rng.randint(1, 3), f=0))
@@ -92,9 +96,10 @@ def spans_dim(src, dim):
     return True
 
 
-def gen_src(rng, names, dim, tiny, must_span, maxn):
+def gen_src(rng, names, dim, tiny, must_span, maxn, method=None):
     while True:
-        src = [gen_array(rng, nm, dim, rng.randint(1, maxn), tiny)
+        lo = maxn - 1 if method == 'order1' else 1
+        src = [gen_array(rng, nm, dim, rng.randint(lo, maxn), tiny, method)
                for nm in names]
         if not must_span or spans_dim(src, dim):
             return src
@@ -124,11 +129,14 @@ def field_kind(rng, method):
     return rng.choice(('data',) * 6 + ('const', 'const', 'linear'))
 
 
-def gen_pts(rng, dim, api):
+def gen_pts(rng, dim, api, method=None):
     n = rng.randint(1, 5)
     pts = []
     for i in range(n):
-        c = rand_coord(rng, dim, -3, span(dim) + 3)
+        if method == 'order1' and rng.random() < 0.75:
+            c = rand_coord(rng, dim, 0, span(dim, method))
+        else:
+            c = rand_coord(rng, dim, -3, span(dim, method) + 3)
         pts.append(dict(x=c[0], y=c[1], z=c[2],
                         h=rng.choice((1, 2, 2, 3)) if api == 'eval' else 0))
     return pts
@@ -139,6 +147,8 @@ def gen_history(rng, cfg, hid, first, family='plain'):
     names = cfg['names']
     tiny = family == 'tiny'
     maxn = {1: 4, 2: 4, 3: 5}[dim] if len(names) == 1 else 3
+    if method == 'order1':
+        maxn = {1: 6, 2: 3, 3: 2}[len(names)]
     if tiny:
         ue = -21
     elif method == 'order1' or cfg['kernel'] != 'probe':
@@ -146,8 +156,8 @@ def gen_history(rng, cfg, hid, first, family='plain'):
     else:
         ue = rng.choice((0, 0, -3, 2, 5, -7))
     org = [rng.randint(-4, 4) if k < dim else 0 for k in range(3)]
-    st = dict(src=gen_src(rng, names, dim, tiny, first, maxn),
-              pts=gen_pts(rng, dim, api))
+    st = dict(src=gen_src(rng, names, dim, tiny, first, maxn, method),
+              pts=gen_pts(rng, dim, api, method))
     st['lin'] = set_field(rng, st['src'], dim, field_kind(rng, method))
     steps = []
 
@@ -164,9 +174,10 @@ def gen_history(rng, cfg, hid, first, family='plain'):
             if family == 'order' and it == 1 and rep == 0:
                 act = 'UpdateArraysPermuted'
             if act == 'SetPoints':
-                st['pts'] = gen_pts(rng, dim, api)
+                st['pts'] = gen_pts(rng, dim, api, method)
             elif act.startswith('UpdateArrays'):
-                st['src'] = gen_src(rng, names, dim, tiny, False, maxn)
+                st['src'] = gen_src(rng, names, dim, tiny, False, maxn,
+                                    method)
                 if act == 'UpdateArraysPermuted':
                     st['src'] = st['src'][1:] + st['src'][:1]
                 elif family == 'order':
@@ -179,7 +190,7 @@ def gen_history(rng, cfg, hid, first, family='plain'):
                 for a in st['src']:
                     for q in a['p']:
                         if rng.random() < 0.7:
-                            c = rand_coord(rng, dim, 0, span(dim))
+                            c = rand_coord(rng, dim, 0, span(dim, method))
                             q['x'], q['y'], q['z'] = c
                         if rng.random() < 0.3:
                             q['h'] = rng.choice((1, 2))
